@@ -40,7 +40,7 @@ type c06Prog struct {
 var c06Kinds = []string{"sig-removed", "key-removed", "sig-other-entry", "sig-flip", "payload-changed", "foreign-key", "foreign-logid", "next-changed", "time-changed"}
 
 func genC06(t *rapid.T) c06Prog {
-	cfg := sim.GenConfig{MaxReplicas: 3, MaxOps: ev.Scale(24, 50), MinOps: 2, Codecs: []int{0, 1, 2}, AppendBias: 3, NoRebuild: true, WithLoad: true}
+	cfg := sim.GenConfig{MaxReplicas: 3, MaxOps: ev.Scale(24, 50), MinOps: 2, Codecs: []int{0, 1, 2}, AppendBias: 3, NoRebuild: true, WithLoad: true, LargeOneIn: ev.Scale(128, 96)}
 	w := sim.Gen(t, cfg)
 	p := c06Prog{World: w}
 	p.Src = rapid.IntRange(0, w.Replicas-1).Draw(t, "src")
